@@ -8,7 +8,7 @@ import ast
 
 from .core import ( rule, Result, AnalysisError, Matcher, dotted, call_name, is_call_to, names_in, attrs_in, walk_no_nested,
                     pmatch, pfind, txt, norm_text )
-from .fold import try_fold
+from .fold import try_fold, NoFold
 from .cfg import CFG
 from .rules_paths import linear, _canon, LocalDefs
 
@@ -296,17 +296,27 @@ def f_frag( ctx ):
     #      ( struct_calcsize = 80 ), so a non-zero offset addresses the wrong elements ( offset 80 = "element 1" ) - acknowledged with success,
     #      a write destroys elements of the previous fragment.  By value, the whole body on a record standing for the tag: such a request is
     #      refused, the same request on fixed-size elements and on structures is served
-    from .fold import run_block as _run, Record as _Rec
+    from .fold import run_block as _run, Record as _Rec, NoFold as _NoFold
+    PARAMS = [ a.arg for a in fn.args.args if a.arg not in ( 'self', 'cls' ) ]
+    if len( PARAMS ) < 3:
+        raise AnalysisError( 'Logix.reply_elements: parameters ( attribute, data, context ) not found' )
+    EXTRA = {}									# further parameters take their defaults
+    for a_, d_ in zip( reversed( fn.args.args ), reversed( fn.args.defaults )):
+        v_ = try_fold( d_, { 'MAX_BYTES': 500, 'self.MAX_BYTES': 500, 'Logix.MAX_BYTES': 500 }, default=NoFold )
+        if v_ is not NoFold:
+            EXTRA[a_.arg] = v_
     def extent( tag, size, svc, cx ):
         att = _Rec( parser=_Rec( struct_calcsize=size, tag_type=tag ), n=40 )
         env = { 'self.RD_TAG_RPY': 0xCC, 'self.RD_FRG_RPY': 0xD2, 'self.WR_TAG_RPY': 0xCD, 'self.WR_FRG_RPY': 0xD3, 'self.MAX_BYTES': 500,
                 'resolve_element': lambda p_: ( 0, ), 'type': type, 'tuple': tuple, 'len': lambda x: x.n if isinstance( x, _Rec ) else len( x ),
                 'STRING.tag_type': 0xD0, 'SSTRING.tag_type': 0xDA, 'STRUCT.tag_type': 0x2A0, 'typed_data.datasize': lambda t, *a: 4,
-                fn.args.args[1].arg: att, fn.args.args[2].arg: { 'service': svc, 'path': 'P', 'read_frag': cx, 'write_frag': cx },
-                fn.args.args[3].arg: 'read_frag' if svc == 0xD2 else 'write_frag' }
+                **EXTRA, PARAMS[0]: att, PARAMS[1]: { 'service': svc, 'path': 'P', 'read_frag': cx, 'write_frag': cx },
+                PARAMS[2]: 'read_frag' if svc == 0xD2 else 'write_frag' }
         try:
             return _run( [ st for st in fn.body if not ( isinstance( st, ast.Expr ) and isinstance( st.value, ast.Constant )) ], env, ignore_calls=( 'log', )).kind
-        except NoFold as exc:
+        except _NoFold as exc:
+            if res.findings:
+                return None					# the clauses above have already reported this tree: not decided here, not hidden
             raise AnalysisError( 'Logix.reply_elements: not a decision fragment: %s' % exc )
     cells_ = (( 'Read Tag Fragmented of STRING elements at offset 80', 0xD0, 80, 0xD2, { 'offset': 80, 'elements': 20 }, 'raise' ),
                ( 'Read Tag Fragmented of SSTRING elements at offset 160', 0xDA, 80, 0xD2, { 'offset': 160, 'elements': 20 }, 'raise' ),
@@ -317,6 +327,8 @@ def f_frag( ctx ):
     for what, tag, size, svc, cx, want in cells_:
         got = extent( tag, size, svc, cx )
         res.cells += 1
+        if got is None:
+            break
         if got != want:
             res.bad( src, fn, 'Logix.reply_elements: %s is %s' % ( what, 'served' if got == 'return' else 'refused' ),
                      'the size of a STRING / SSTRING element is an estimate: dividing a byte offset by it addresses other elements than the client means - a fragmented read returns the wrong strings with status 0x00 / 0x06, a fragmented write overwrites elements of the fragment before; only offset 0 can be served' if want == 'raise'
